@@ -82,6 +82,9 @@ type Result struct {
 // pruning changes neither the set of outcomes nor the set of violations.
 var NoPrune = os.Getenv("VERIF_NOPRUNE") == "1"
 
+// MaxStates bounds the state cache of one Explore call (memory: roughly 100 bytes per state).
+var MaxStates = 3_000_000
+
 type cost struct{ p, f, c int }
 
 // BeforeExec functions run before every execution (reset of package-level state of the code under test).
@@ -164,6 +167,9 @@ func Explore(sc *Scenario, deadline time.Time) *Result {
 				if v.p <= p && v.f <= f && v.c <= c {
 					return true
 				}
+			}
+			if vs == nil && len(visited) >= MaxStates {
+				return false // table full: keep exploring without storing (sound, less reduction)
 			}
 			keep := vs[:0]
 			for _, v := range vs {
